@@ -1065,6 +1065,9 @@ class TestResult(unittest.TestResult):
             self.stop()
 
     def stopTest(self, test):
+        # No result event restores the streams when the test is interrupted
+        # (KeyboardInterrupt); this is a no-op otherwise.
+        self._restoreStdStreams()
         self.testTearDown()
         # Without clearing, cyclic garbage referenced by the test
         # would be reported in the following test.
